@@ -82,11 +82,12 @@ def twin(case, ol):
 
 def run(ctx):
     ctx.rule = ("random manager histories with frozen windows at random positions containing every kind of API call (assign value/expression, "
-                "in-place, register, unregister, load, refresh, verify, cleanup); non-trivial = a window with >= 1 rejected call and >= 1 "
+                "in-place, register, unregister, load, refresh, verify, cleanup), several windows per history, unbalanced freeze/unfreeze calls "
+                "(freeze when frozen, unfreeze when not), repeated assignments to the same locations across windows; non-trivial = a window with >= 1 rejected call and >= 1 "
                 "propagating plain assignment; distinct by op list")
     ctx.scale_if_changed()
     proof_ok = vlib.standard_proof_part(ctx, "props/C17.v", extra_targets=["run/RunManager.vo"])
-    cases = [mc.gen_history(ctx.rng, "frozen", nops=ctx.rng.randint(6, 16)) for _ in range(ctx.pick(260, 4000))]
+    cases = [mc.gen_history(ctx.rng, ["frozen", "frozen", "windows"][i % 3], nops=ctx.rng.randint(6, 18)) for i in range(ctx.pick(260, 4000))]
     obs = mc.run_impl_cases(cases)
     mism = mc.model_compare(ctx, cases, obs, "c17")
     fails = oracle(cases, obs)
